@@ -20,7 +20,7 @@ RULE = ("Exhaustive: every r x c integer table with entries in {0,1,2} for r,c <
         "booleans, tables with many ties, sparse int/float tables with missing pairs incl. all-missing rows, columns and "
         "tables. Oracle for every table: the result is one-to-one, uses only existing pairs and reports for each pair "
         "the table's own entry with its type; for complete tables additionally |matching| = min(r,c) and the total "
-        "equals the brute-force minimum over all injections (<= 720 per table; floats with relative tolerance 1e-9); "
+        "equals the brute-force minimum over all injections (<= 720 per table; floats with relative tolerance 1e-12); "
         "get_dtype(lo,hi) can represent lo and hi. Non-trivial: non-square, or a tie on the optimum, or a missing pair. "
         "Distinct by case hash (enumerated tables are distinct by construction).")
 ASSUMPTIONS = [
@@ -97,6 +97,9 @@ def strategies():
                 st.integers(0, len(w) - 1), st.integers(0, len(w[0]) - 1), st.sampled_from([2 ** 63 - 1, -2 ** 63, 2 ** 63 - 2])
             ).map(lambda t: [[(t[2] if (i, j) == (t[0], t[1]) else x) for j, x in enumerate(r)] for i, r in enumerate(w)])),
         'float': table(floats),
+        # floats that differ only far below single precision
+        'close-float': table(st.sampled_from([1.0, 1.0 + 2.0 ** -30, 1.0 + 2.0 ** -29, 1.0 - 2.0 ** -31, 2.0 ** 26, 2.0 ** 26 + 1, 2.0 ** 26 + 2,
+                                              0.1, 0.1 + 2.0 ** -40, 3.5]), 4),
         'bool': table(st.booleans()),
         'sparse-int': table(st.one_of(st.none(), st.integers(0, 9))),
         'sparse-float': table(st.one_of(st.none(), floats), 4),
@@ -167,7 +170,7 @@ def check(case):
         tot = sum(wt for _, wt in m.values())
         b, ties = brute(w)
         if isinstance(tot, float):
-            ok = abs(tot - b) <= 1e-9 * max(1.0, abs(b))
+            ok = abs(tot - b) <= 1e-12 * max(1.0, abs(b))      # at most six doubles are added on either side
         else:
             ok = tot == b
         if not ok:
